@@ -72,5 +72,9 @@ def run(ctx):
                 "equal node of the old upper level is reused; dead old children are removed exactly once.")
     nsw = eswap.run(ctx, F)
     ctx.floor("E-TABLE.swap", "interpreted level_swap situations", nsw, 80)
+    ctx.explain("E-PERM.acquire: in the concurrent bubble sort a position is taken for a further swap (blocked.insert) only on the "
+                "`false` edge of a dominating blocked.contains test: two swaps never restructure a common level.")
+    na = esort.check_acquire_guard(ctx, F)
+    ctx.floor("E-PERM.acquire", "position acquisitions in the worker loop", na, 2)
     ctx.not_decided = ("that functions are preserved, that the requested order is reached with minimal swaps, "
                        "non-overlap of concurrent swaps (runtime indices)")
